@@ -449,8 +449,12 @@ func c16(c *core.Ctx) {
 				if core.Strip(r.Results[0]) != ssa.Value(fn.Params[0]) {
 					continue
 				}
-				g1 := core.GuardedBy(r, func(f core.Fact) bool { return f.Op == token.EQL && core.IsNilConst(f.Y) && isParamVal(f.X, fn.Params[1]) })
-				g2 := core.GuardedBy(r, func(f core.Fact) bool { return f.Op == token.EQL && core.IsNilConst(f.Y) && isParamVal(f.X, fn.Params[2]) })
+				g1 := core.GuardedBy(r, func(f core.Fact) bool {
+					return f.Op == token.EQL && core.IsNilConst(f.Y) && isParamVal(f.X, fn.Params[1])
+				})
+				g2 := core.GuardedBy(r, func(f core.Fact) bool {
+					return f.Op == token.EQL && core.IsNilConst(f.Y) && isParamVal(f.X, fn.Params[2])
+				})
 				if g1 && g2 {
 					ok = true
 				}
@@ -458,8 +462,12 @@ func c16(c *core.Ctx) {
 			// and no other path returns the input unchanged when an interceptor is set
 			for _, r := range core.Returns(fn) {
 				if core.Strip(r.Results[0]) == ssa.Value(fn.Params[0]) {
-					g1 := core.GuardedBy(r, func(f core.Fact) bool { return f.Op == token.EQL && core.IsNilConst(f.Y) && isParamVal(f.X, fn.Params[1]) })
-					g2 := core.GuardedBy(r, func(f core.Fact) bool { return f.Op == token.EQL && core.IsNilConst(f.Y) && isParamVal(f.X, fn.Params[2]) })
+					g1 := core.GuardedBy(r, func(f core.Fact) bool {
+						return f.Op == token.EQL && core.IsNilConst(f.Y) && isParamVal(f.X, fn.Params[1])
+					})
+					g2 := core.GuardedBy(r, func(f core.Fact) bool {
+						return f.Op == token.EQL && core.IsNilConst(f.Y) && isParamVal(f.X, fn.Params[2])
+					})
 					if !(g1 && g2) {
 						ok = false
 					}
